@@ -77,7 +77,7 @@ def ref_key_fn(u):
 
 
 def extract_fn(u):
-    f = u.real_fn(CP, "extract_reference", scope=r"impl LogRefEntry\b", owner="LogRefEntry", props=("C12", "C13", "C17"))
+    f = u.real_fn(CP, "extract_reference", scope=r"impl LogRefEntry\b", owner="LogRefEntry", props=("C01", "C03", "C05", "C06", "C12", "C13", "C17"))
     rules.sig(f, ret="r")
     statics = rules.r_lazy_static(f)
     # `.captures_iter(x).next()` is the first match = `.captures(x)`
@@ -85,7 +85,9 @@ def extract_fn(u):
     # `capture[1]` -> group accessor (Index panics when the group did not participate)
     f.replace_all(r"\bcapture\[(\d+)\]\s*\.parse::<u32>\(\)", r"str_parse_u32(capture.group_str(\1))", "R9", regex=True, min_count=1)
     rules.r9_str_len(f, ["log_literal"])
-    f.ensures.append(("C12.extract", "r == extract_spec(log_literal.spec_bytes())"))
+    # which statements count as carrying a reference (and which ID) underlies C01 (existing IDs), C03 (a referenced statement receives nothing),
+    # C05 (what lacks a reference), C06 (read back) as well as C12 itself
+    f.ensures.append(("C12.extract,C01.existing,C03.existing,C05.missing,C06.readback", "r == extract_spec(log_literal.spec_bytes())"))
     f.at_start(" proof { encode_utf8_decode_utf8(log_literal@); axiom_token_pattern(log_literal@); }")
     return f, statics
 
